@@ -271,14 +271,15 @@ _PROB_TRUST = ("Trusted: the harness's typed generator / printer / exact evaluat
                "(get, arith_value, sat value of sigma, ov value). Shapes covered by the known findings KF1-KF4 are excluded by named generator predicates and represented by their replay files.")
 
 PROPS["C01"] = {
-    "runs": _prob("C01", 1000, 20000, layers=("L0", "L1", "L3", "L2p", "L3b"), l0_mult=4, budget_ms=10000),
+    "runs": _prob("C01", 1000, 20000, layers=("L0", "L1", "L1m", "L3", "L2p", "L3b"), l0_mult=4, budget_ms=10000),
     "rule": "Typed RIDDLE problems generated with a printer and an exact evaluator, read and solved in-process (solver::read + solve) in each configuration of the run "
             "(quick: Debug h_max and Debug h_add + CHECK_INCONSISTENCIES; thorough: all 8 of h_max/h_add x CI off/on x Debug/Release). Layers: L0 real/int/bool variables, linear "
             "relations with rational coefficients (products with constants on either side, division, unary +/-), & | -> ^ ! == != between booleans, disjunction statements; "
             "L1 adds class hierarchies, instances, object variables, field accesses through variables, object (dis)equalities; L3 adds state-variable and reusable-resource timelines; "
             "L2p: planted rule problems whose goals interact through one shared variable (real n in [lo, hi]; predicates P(real x) { x ==|<=|>= n; }; 2-4 goals with 2-3 alternative "
             "subgoals P(x: v) - or, one disjunct in three, the constraint v ==|<=|>= n itself -, one of them true under the witness value of n, the others clashing with other goals' choices or dead ends outside n's bounds) - here the constraint in "
-            "the rule body of every active atom is re-evaluated on the reported values. "
+            "the rule body of every active atom is re-evaluated on the reported values; L1m: top-level methods, among them a method without a return value whose body states a "
+            "constraint on its argument - calling it asserts that constraint, so a problem in which it contradicts the pinned value of the argument must not come back solved. "
             "About 2/3 of the problems are planted around a witness. Oracle when solve() returns true: every asserted constraint evaluates to true (three-valued, exact arithmetic "
             "with infinitesimals) on the reported values, for EVERY remaining value of the object variables it mentions; at least one disjunct of every disjunction statement holds. "
             "The second observation channel of the property, the JSON of core::to_json() (what `oRatio <files> <out.json>` writes), is compared with the API on every solution: value of "
